@@ -209,3 +209,54 @@ def simulate(cfg: CFG, start: Node, ev: RoleEval, env: dict[str, Any], targets: 
         may |= hit
         must = set(hit) if must is None else (must & hit)
     return may, (must or set())
+
+
+def paths(cfg: CFG, start: Node, ev: RoleEval, env: dict[str, Any], stop: set[Node], max_paths: int = 256,
+          skip_loops: bool = False) -> list[list[Node]]:
+    """All abstract executions from `start` under `env` as node sequences.
+
+    Loops are unrolled at most once: the first visit of a loop head forks into "enter the body" and
+    "zero iterations"; the second visit leaves the loop. Each path ends at a node in `stop` or an exit.
+    """
+    out: list[list[Node]] = []
+    work: list[tuple[Node, tuple[Node, ...]]] = [(start, ())]
+    while work:
+        n, pref = work.pop()
+        if len(out) + len(work) > max_paths:
+            raise AnalysisError(f"path explosion while interpreting {cfg.fn.qualname}")
+        path = list(pref)
+        while True:
+            visits = sum(1 for x in path if x is n)
+            path.append(n)
+            if n in stop or n.kind in ("exit", "raise_exit"):
+                break
+            is_loop_head = n.kind == "for" or (n.kind == "test" and isinstance(n.stmt, ast.While))
+            if visits >= 1 and not is_loop_head:
+                break  # irreducible revisit: give up on this path
+            if visits >= 2:
+                break
+            if n.kind == "for":
+                if visits == 1 or skip_loops:
+                    nxt = [s for s, l in n.succ if l == "done"]
+                else:
+                    nxt = [s for s, l in n.succ if l == "iter"] + [s for s, l in n.succ if l == "done"]
+            elif n.kind == "test":
+                if is_loop_head and visits == 1:
+                    nxt = [s for s, l in n.succ if l == "false"]
+                else:
+                    v = ev.value(n.ast, n, env)  # type: ignore[arg-type]
+                    if v is UNKNOWN:
+                        nxt = [s for s, l in n.succ if l in ("true", "false")]
+                    else:
+                        nxt = [s for s, l in n.succ if l == ("true" if v else "false")]
+            elif n.kind == "stmt" and isinstance(n.ast, ast.Raise):
+                nxt = [s for s, _ in n.succ][:1]
+            else:
+                nxt = [s for s, l in n.succ if l != "exc"]
+            if not nxt:
+                break
+            for s in nxt[1:]:
+                work.append((s, tuple(path)))
+            n = nxt[0]
+        out.append(path)
+    return out
